@@ -4,7 +4,7 @@
    C06/Model.v, tied to the code by the correspondence check (harness/c06.py). Money is in exact
    integer ticks (Z): binary floating-point rounding is outside the model (DESIGN §6). *)
 From Coq Require Import String List Bool ZArith Permutation.
-From Tally Require Import Lib.Str Lib.NumOps C06.Model C06.Proofs.
+From Tally Require Import Lib.Str Lib.NumOps C06.Model C06.Proofs C06.Keys.
 Import ListNotations.
 Open Scope Z_scope.
 
@@ -81,6 +81,45 @@ Theorem c06_merge :
 Proof. exact merge. Qed.
 Print Assumptions c06_merge.
 
+(* a breakdown has an entry for a merchant / (category, subcategory) / month exactly when some analysed
+   transaction carries that key, and never two entries for one key: "the" entry of a transaction is unique *)
+Theorem c06_breakdown_keys_exact :
+  forall l,
+    (forall k, In k (map fst (by_merchant (analyze l))) <-> In k (map merchant l)) /\
+    (forall k, In k (map fst (by_category (analyze l))) <-> In k (map key_cat l)) /\
+    (forall k, In k (map fst (by_month (analyze l))) <-> In k (map month l)) /\
+    NoDup (map fst (by_merchant (analyze l))) /\
+    NoDup (map fst (by_category (analyze l))) /\
+    NoDup (map fst (by_month (analyze l))).
+Proof. exact breakdown_keys. Qed.
+Print Assumptions c06_breakdown_keys_exact.
+
+(* entries appear in the order in which their key is first seen (Python dict order). The correspondence
+   check compares key sets, counts and totals but sorts the implementation's entries, so the ORDER part of
+   this statement is about the model only (iteration order of the real dicts is not observed). *)
+Theorem c06_breakdown_order :
+  forall l,
+    map fst (by_merchant (analyze l)) = first_occ String.eqb [] (map merchant l) /\
+    map fst (by_category (analyze l)) = first_occ pair_eqb [] (map key_cat l) /\
+    map fst (by_month (analyze l)) = first_occ String.eqb [] (map month l).
+Proof. intros l. split; [exact (merchant_keys l)|split; [exact (category_keys l)|exact (month_keys l)]]. Qed.
+Print Assumptions c06_breakdown_order.
+
+(* no entry is empty: a key that is present has counted at least one transaction *)
+Theorem c06_entries_nonempty :
+  forall l,
+    (forall k, In k (map merchant l) -> 0 < fst (look String.eqb k (by_merchant (analyze l)))) /\
+    (forall k, In k (map key_cat l) -> 0 < fst (look pair_eqb k (by_category (analyze l)))) /\
+    (forall k, In k (map month l) -> 0 < fst (look String.eqb k (by_month (analyze l)))).
+Proof. exact entries_nonempty. Qed.
+Print Assumptions c06_entries_nonempty.
+
+(* the signed grand total and the count are those of the input: nothing dropped, nothing counted twice *)
+Theorem c06_total_and_count :
+  forall l, total (analyze l) = sumZ (map amount l) /\ count (analyze l) = Z.of_nat (length l).
+Proof. exact total_and_count. Qed.
+Print Assumptions c06_total_and_count.
+
 (* non-vacuity: a list hitting four buckets, mixed-case tags, a missing tags key *)
 Example c06_example :
   let l := [ {| amount := 640; tags := Some ["Food"]; merchant := "A"; category := "X"; subcategory := "x"; month := "2025-01" |};
@@ -88,5 +127,6 @@ Example c06_example :
              {| amount := -3200; tags := Some ["INCOME"; "transfer"]; merchant := "B"; category := "Y"; subcategory := "y"; month := "2025-02" |};
              {| amount := -64; tags := Some ["Transfer"]; merchant := "C"; category := "Y"; subcategory := "z"; month := "2025-01" |} ]%string in
   scalars (analyze l) = [3200; 0; 640; 128; 0; 64; -2752; 4; 2688; -64] /\
-  look String.eqb "A" (by_merchant (analyze l)) = (2, 512) /\ map effective l = [640; -128; 3200; -64].
+  look String.eqb "A" (by_merchant (analyze l)) = (2, 512) /\ map effective l = [640; -128; 3200; -64] /\
+  map fst (by_merchant (analyze l)) = ["A"; "B"; "C"]%string /\ map fst (by_month (analyze l)) = ["2025-01"; "2025-02"]%string.
 Proof. vm_compute. repeat split; reflexivity. Qed.
